@@ -1,6 +1,7 @@
 package main
 
 import (
+	"sort"
 	"time"
 	"encoding/json"
 	"errors"
@@ -556,6 +557,42 @@ func c19Search() {
 					continue
 				}
 				runEpisode(sc)
+			}
+			// ... and, deliberately, the ends of the longest lines: a line is what one
+			// formatting call hands to the writer, and the newline behind a very long
+			// line may travel separately from it.
+			{
+				type ln struct{ end, length int }
+				var lines []ln
+				start := 0
+				for i := 0; i < len(S); i++ {
+					if S[i] == '\n' {
+						lines = append(lines, ln{i, i - start})
+						start = i + 1
+					}
+				}
+				sort.Slice(lines, func(i, j int) bool {
+					if lines[i].length != lines[j].length {
+						return lines[i].length > lines[j].length
+					}
+					return lines[i].end < lines[j].end
+				})
+				if len(lines) > 5 {
+					lines = lines[:5]
+				}
+				sc := &C19Scenario{Module: src.Name, Start: "printed"}
+				for _, l := range lines {
+					for _, k := range []int{l.end - 1, l.end, l.end + 1} {
+						if k >= 0 && k <= len(S) {
+							sc.Steps = append(sc.Steps, C19Step{K: k, Shape: "short", Err: []string{"", "cause-other"}[k%2]})
+						}
+					}
+				}
+				sc.Steps = append(sc.Steps, C19Step{K: -1, Shape: "short"})
+				if mine() {
+					runEpisode(sc)
+					sum.Counters["episodes aimed at the ends of the longest lines of a big module"]++
+				}
 			}
 			if shardI == 0 {
 				sum.Counters["modules sampled"]++
